@@ -67,7 +67,8 @@ structure Pend where
   key : Key
   face : FaceId
   toks : List Bytes
-  nonce : Nat
+  /-- the nonce currently recorded for this face is one of these (a singleton when certain) -/
+  nonces : List Nat
   since : Time          -- start of the certain, continuous presence of this in-record
   certainUntil : Time   -- the in-record certainly exists while now < certainUntil (0 = never certain)
   possibleUntil : Time
@@ -182,8 +183,8 @@ def onInterest (sp : SpSt) (f : FaceId) (i : Interest) (obs : List Obs) (pit cs 
   let nonce := i.nonce.getD 0
   let fresh := i.nonce.isSome && !(sp.usedNonce.contains (i.name, nonce))
   let certDead := sp.dead.any fun d => d.1 == i.name && d.2.1 == nonce && sp.now < d.2.2
-  let certDup := sp.pends.any fun p => p.key == key && p.face != f && p.nonce == nonce && p.certain sp.now
-  let possDup := sp.pends.any fun p => p.key == key && p.face != f && p.nonce == nonce
+  let certDup := sp.pends.any fun p => p.key == key && p.face != f && p.nonces == [nonce] && p.certain sp.now
+  let possDup := sp.pends.any fun p => p.key == key && p.face != f && p.nonces.contains nonce
   let droppedSure := inF.isNone || i.hop == some 0 || inboundViolation || i.nonce.isNone || certDead || certDup
   let certainOut (o : OutI) : Bool :=
     sp.pends.any fun p => p.key == o.key && p.certain sp.now && p.since ≤ o.sentAt
@@ -257,7 +258,10 @@ def onInterest (sp : SpSt) (f : FaceId) (i : Interest) (obs : List Obs) (pit cs 
                        lastPit := pit, lastCs := cs }
   if droppedSure then (sp1, fails)
   else
-    let processed := (fresh && !inboundMaybe) || !isends.isEmpty || !dsends.isEmpty
+    /- from a non-local face an Interest "/" with CanBePrefix may be swallowed by a cached /localhost
+       Data that the outgoing scope rule then drops -/
+    let cacheMaySwallow := sp.csServe && (match inF with | some fc => !fc.isLocal | none => false) && i.cbp && i.name.isEmpty
+    let processed := (fresh && !inboundMaybe && !cacheMaySwallow) || !isends.isEmpty || !dsends.isEmpty
     let dl := sp.now + lifetimeNs i
     let old := sp.pends.find? fun p => p.key == key && p.face == f
     let others := sp.pends.filter fun p => !(p.key == key && p.face == f)
@@ -267,16 +271,18 @@ def onInterest (sp : SpSt) (f : FaceId) (i : Interest) (obs : List Obs) (pit cs 
         | some p =>
           let stillCertain := p.certain sp.now
           { p with toks := if p.toks.contains i.tok then p.toks else p.toks ++ [i.tok]
-                   nonce := if processed then nonce else p.nonce
+                   nonces := if processed then [nonce] else if p.nonces.contains nonce then p.nonces else nonce :: p.nonces
                    since := if stillCertain then p.since else sp.now
                    certainUntil := if processed then dl else if stillCertain then min p.certainUntil dl else 0
                    possibleUntil := if processed then dl else max p.possibleUntil dl } :: others
         | none =>
-          { key := key, face := f, toks := [i.tok], nonce := nonce, since := sp.now,
+          { key := key, face := f, toks := [i.tok], nonces := [nonce], since := sp.now,
             certainUntil := if processed then dl else 0, possibleUntil := dl } :: others
     let dead := match old with
-      | some p => if processed && dsends.isEmpty && p.certain sp.now && p.possibleUntil == p.certainUntil
-                  then (i.name, p.nonce, sp.now + sp.dnlLife) :: sp1.dead else sp1.dead
+      | some p =>
+        match p.nonces with
+        | [x] => if processed && dsends.isEmpty && p.certain sp.now then (i.name, x, sp.now + sp.dnlLife) :: sp1.dead else sp1.dead
+        | _ => sp1.dead
       | none => sp1.dead
     let outs := isends.foldl (fun acc o => ⟨key, o.face, nonce, sp.now⟩ :: acc.filter (fun x => !(x.key == key && x.face == o.face))) sp1.outs
     let issued := isends.foldl (fun acc o => match labelOfTok o.tok with
